@@ -29,7 +29,12 @@ def worker(args, scratch):
     def bump(k, n=1):
         with lock:
             cnt[k] = cnt.get(k, 0) + n
-    w = wproxy.World(scratch, runtime="multi:8")
+    def handler(name, req):
+        vid = req.header("x-vf-id") or b""
+        if vid.endswith(b"-hf"):
+            return {"reset": True}      # the host drops the connection while answering this request
+        return wproxy.World.default_handler(name, req)
+    w = wproxy.World(scratch, runtime="multi:8", handler=handler)
     endpoint = args["endpoint"]
     ip, port = wproxy.DESTS[endpoint]
     status_dir = scratch + "/status"
@@ -50,7 +55,7 @@ def worker(args, scratch):
             base = [(r.randrange(len(callers)), r.choice(["GET", "POST", "DELETE"]), gen_rbac.gen_url(r)) for _ in range(args["distinct"])]
             for _ in range(args["requests"]):
                 ci, method, url = r.choice(base)   # many identical requests -> counts
-                seq.append((ci, method, url))
+                seq.append((ci, method, url, r.random() < 0.08))     # last: the host fails while answering this request
             reference_upstream = None
             for mode in ("allow-all", "enforce", "audit", "disabled"):
                 d = ALLOW_ALL if mode == "allow-all" else dict(doc, mode=mode, id="%s-%d-%s" % (endpoint, rs, mode))
@@ -61,8 +66,8 @@ def worker(args, scratch):
 
                 def run_slice(lo, hi):
                     for i in range(lo, hi):
-                        ci, method, url = seq[i]
-                        vid = "%s-%d" % (tag, i)
+                        ci, method, url, hostfault = seq[i]
+                        vid = "%s-%d%s" % (tag, i, "-hf" if hostfault else "")
                         try:
                             conn = w.open(endpoint, callers[ci])
                             body = b"b" * 10 if method == "POST" else b""
@@ -82,16 +87,14 @@ def worker(args, scratch):
                 for u in w.mocks[endpoint].snapshot():
                     vid = (u.header("x-vf-id") or b"").decode()
                     if vid.startswith(tag + "-"):
-                        upstream.setdefault(int(vid.rsplit("-", 1)[1]), []).append(u)
+                        upstream.setdefault(int(vid[len(tag) + 1:].split("-")[0]), []).append(u)
                 expected_denials = collections.Counter()
-                for i, (ci, method, url) in enumerate(seq):
+                ambiguous_keys = set()
+                for i, (ci, method, url, hostfault) in enumerate(seq):
                     res["evaluations"] += 1
                     who = callers[ci]
                     claims = who.claims()
                     root_only = endpoint in ("wireserver", "hostga") and not who.elevated
-                    dec, _ = rbac.decide(d, claims, url)
-                    if dec is None:
-                        bump("ambiguous_excluded"); continue
                     key = (who.user, ip, port, who.exe, who.cmdline)
                     wit = {"endpoint": endpoint, "mode": mode, "caller": claims, "method": method, "url": url, "status": results[i], "relayed": len(upstream.get(i, [])), "rules": d}
                     if root_only:
@@ -99,16 +102,27 @@ def worker(args, scratch):
                         if results[i] != 403 or upstream.get(i):
                             res["violations"].append(["non-elevated-not-refused", wit])
                         continue
+                    dec, _ = rbac.decide(d, claims, url)
+                    if dec is None:
+                        ambiguous_keys.add(key)
+                        bump("ambiguous_excluded"); continue
                     denied = not dec
                     if denied and mode in ("enforce", "audit"):
                         expected_denials[key] += 1
-                        res["nontrivial"].append(common.sha([endpoint, mode, key]))
+                        res["nontrivial"].append(common.sha([endpoint, mode, key, url]))
                     if denied and mode == "enforce":
                         bump("denied_enforce")
                         if results[i] != 403:
                             res["violations"].append(["enforce-denial-not-403", wit])
                         if upstream.get(i):
                             res["violations"].append(["enforce-denial-relayed", wit])
+                    elif hostfault:
+                        # the host dropped the connection: the client gets a gateway error, the request did reach the host; a denial stays a denial
+                        bump("host_fault_requests")
+                        if denied and mode == "audit":
+                            bump("denied_audit_with_host_fault")
+                        if results[i] not in (502, 503) or len(upstream.get(i, [])) != 1:
+                            res["violations"].append(["request-with-host-fault-not-handled-as-gateway-error", wit])
                     else:
                         if denied and mode == "audit":
                             bump("denied_audit_forwarded")
@@ -123,6 +137,8 @@ def worker(args, scratch):
                 # conservation on the published summary: getter and status.json
                 got = w.shim.call("summaries")
                 ms = summary_multiset(got["failed"])
+                for ak in ambiguous_keys:      # a caller with a request the reference cannot judge: its count is not compared
+                    ms.pop(ak, None); expected_denials.pop(ak, None)
                 if ms != expected_denials:
                     diff = {"missing": {str(k): v for k, v in (expected_denials - ms).items()}, "extra": {str(k): v for k, v in (ms - expected_denials).items()}}
                     sig = "failed-summary-%s:%s" % ("undercount" if (expected_denials - ms) and not (ms - expected_denials) else ("overcount" if (ms - expected_denials) and not (expected_denials - ms) else "mismatch"), mode)
@@ -133,6 +149,8 @@ def worker(args, scratch):
                     with open(os.path.join(status_dir, "status.json")) as f:
                         sj = json.load(f)
                     fs = summary_multiset(sj.get("failedAuthenticateSummary", []))
+                    for ak in ambiguous_keys:
+                        fs.pop(ak, None)
                     if fs != expected_denials:
                         res["violations"].append(["status-file-failed-summary-mismatch:%s" % mode, {"endpoint": endpoint, "mode": mode,
                                                   "missing": {str(k): v for k, v in (expected_denials - fs).items()}, "extra": {str(k): v for k, v in (fs - expected_denials).items()}}])
@@ -141,6 +159,52 @@ def worker(args, scratch):
                     res.setdefault("inconclusive", []).append("status.json unreadable: %r" % (e,))
                 if len(res["samples"]) < 2 and sum(expected_denials.values()):
                     res["samples"].append({"endpoint": endpoint, "mode": mode, "requests": len(seq), "expected_denials": {str(k): v for k, v in list(expected_denials.items())[:4]}})
+        # ---- burst: several hundred denials at the same instant (more than the status actor's queue holds)
+        deny_all = {"defaultAccess": "deny", "mode": "enforce", "id": "deny-all-%d" % args["shard"]}
+        for mode in ("enforce", "audit"):
+            w.rules(endpoint, dict(deny_all, mode=mode, id="burst-%s" % mode))
+            w.shim.call("clear_summaries")
+            nburst = args["burst"]
+            who = callers[0]   # elevated, so only the rule decides
+            conns = []
+            for i in range(nburst):
+                c = w.open(endpoint, who)
+                conns.append(c)
+            barrier = threading.Barrier(16)
+            sts = [None] * nburst
+
+            def fire(lo, hi):
+                try:
+                    barrier.wait(10)
+                except Exception:
+                    pass
+                for i in range(lo, hi):
+                    try:
+                        conns[i].send(rawhttp.build_request("GET", "/burst?i=%d" % i, [("x-vf-id", "c11-burst-%s-%d" % (mode, i))]))
+                    except Exception:
+                        pass
+                for i in range(lo, hi):
+                    try:
+                        sts[i] = conns[i].read_response().status
+                    except Exception as e:  # noqa
+                        sts[i] = "error"
+                    conns[i].close()
+            step = (nburst + 15) // 16
+            ts = [threading.Thread(target=fire, args=(k * step, min(nburst, (k + 1) * step))) for k in range(16)]
+            for t in ts: t.start()
+            for t in ts: t.join()
+            time.sleep(0.2)
+            res["evaluations"] += nburst
+            exp_status = 403 if mode == "enforce" else 200
+            wrong = [x for x in sts if x != exp_status]
+            if wrong:
+                res["violations"].append(["burst-%s-wrong-status" % mode, {"statuses": wrong[:5], "count": len(wrong)}])
+            ms = summary_multiset(w.shim.call("summaries")["failed"])
+            total = sum(ms.values())
+            bump("burst_denials_sent", nburst); bump("burst_denials_recorded", total)
+            if total != nburst:
+                res["violations"].append(["failed-summary-%s:burst-%s" % ("undercount" if total < nburst else "overcount", mode), {"sent": nburst, "recorded": total, "endpoint": endpoint}])
+            res["nontrivial"].append(common.sha([endpoint, "burst", mode]))
         for p in w.shim.panics():
             res["violations"].append(["panic:%s" % p.get("location"), p])
     finally:
@@ -157,7 +221,7 @@ def run(tier, rep):
     eps = ["wireserver", "hostga", "imds"]
     shards = 6 if tier == "quick" else 15
     args = [{"shard": i, "tier": tier, "endpoint": eps[i % 3], "rulesets": 3 if tier == "quick" else 25, "requests": 240 if tier == "quick" else 1500,
-             "distinct": 10, "threads": 8} for i in range(shards)]
+             "distinct": 10, "threads": 8, "burst": 400 if tier == "quick" else 1200} for i in range(shards)]
     for res in sandbox.run_many("vf.props.c11", "worker", args, workers=shards, timeout=1800):
         rep.merge_worker(res)
     rep.assumptions += ["refusals of non-elevated WireServer/HostGAPlugin callers are denials too and are counted likewise (in every mode)",
